@@ -271,15 +271,19 @@ PROPS = {
     "C11": dict(
         coq_targets=["Props/C11.vo"],
         harness=[dict(pkg="h_recon", bin="c11", cases={"quick": 400, "thorough": 5000},
+                      checkers=["corr", "oracle"], timeout=2400),
+                 dict(pkg="h_recon", bin="c11s", cases={"quick": 500, "thorough": 8000},
                       checkers=["corr", "oracle"], timeout=2400)],
         allowed_axioms=[],
         trusted_base=[
+            "dispatch (Model/SocketDispatch.v, harness c11s): nodes, lanes, downlinks and bodies are numbers (the harness's name pools include names that need quoting; every message of a case has its own body); the real RemoteTask runs over an in-memory web socket (ratchet over tokio's duplex), the harness is the peer, the plane (FindNode) and the owner of the attached downlinks; after every message the tasks are given time until nothing new arrives, so concurrency between sources is not exercised",
             "strings are lists of Unicode scalar values; the header matcher is modelled for headers whose slot values are text-like or numeric tokens (everything the encoder produces, plus rate / prio); other value shapes in a header are outside the model and not generated",
             "hook: swimos_remote feature `verif` re-exports task::envelopes::ReconEncoder",
         ],
         assumptions=[
             "the theorem covers the text encoding of the eight link-level envelope kinds for every node, lane and body; correspondence ties both directions to the code, the direct oracle re-reads what the real encoder wrote",
-            "not modelled: dispatch of decoded envelopes to the addressed agent / downlinks in the remote task, fairness between the sources sharing a socket (multi reader), auth / deauth, web socket framing (partial)",
+            "the dispatch theorems say that the task's node -> lane -> writers tables (with their clean-up) refine a plain registration list: a response reaches exactly the live downlinks attached for its node and lane, a request the agent of its node or a not-found answer, nothing is delivered after an invalid frame",
+            "not modelled: fairness between the sources sharing a socket (multi reader), auth / deauth, web socket framing (partial)",
             "the reader skips blanks in front of the body: bodies are compared up to leading blanks",
         ],
     ),
